@@ -41,9 +41,9 @@ static long slot_of(const void *e)
     if (((const unsigned char *)e - base) % ESZ) return -1;
     return (long)(((const unsigned char *)e - base) / ESZ);
 }
-static void ctor(void *e, void *p) { long s = slot_of(e); (void)p; ev_add("[\"ctor\",%ld]", s); if (s >= 0) put_tag(e, (int)(s + 1)); }
-static void dtor(void *e, void *p) { long s = slot_of(e); (void)p; ev_add("[\"dtor\",%ld]", s); if (s >= 0) memset(e, 0xEE, ESZ); }
-static int cmp(const void *a, const void *b, void *p) { (void)p; return (int)*(const unsigned char *)a - (int)*(const unsigned char *)b; }
+static void ctor(void *e, void *p) { long s = slot_of(e); e_check_priv(p); ev_add("[\"ctor\",%ld]", s); if (s >= 0) put_tag(e, (int)(s + 1)); }
+static void dtor(void *e, void *p) { long s = slot_of(e); e_check_priv(p); ev_add("[\"dtor\",%ld]", s); if (s >= 0) memset(e, 0xEE, ESZ); }
+static int cmp(const void *a, const void *b, void *p) { e_check_priv(p); return (int)*(const unsigned char *)a - (int)*(const unsigned char *)b; }
 
 static void drv_setup(int argc, char **argv)
 {
@@ -54,7 +54,7 @@ static void drv_setup(int argc, char **argv)
 static void drv_header(jb_t *b) { jb_printf(b, "\"esz\":%zu,\"hasx\":%s,\"maxn\":%d", ESZ, HASX ? "true" : "false", MAXN); }
 static void vinit(struct cstl_vector *v)
 {
-    if (HASX) cstl_vector_init_complex(v, ESZ, ctor, dtor, NULL); else cstl_vector_init(v, ESZ);
+    if (HASX) cstl_vector_init_complex(v, ESZ, ctor, dtor, E_PRIV); else cstl_vector_init(v, ESZ);
 }
 static void drv_reset(void) { a_reset(); vinit(&V[0]); vinit(&V[1]); cur = 0; }
 static void drv_aborted(void) { a_end(); }
@@ -74,7 +74,7 @@ static void drv_apply(const vop_t *op, jb_t *res)
     case 1: { size_t old = v->count; a_begin(a[2] ? 1UL : 0UL); cstl_vector_resize(v, term(a)); a_end(); fill_new(old); jb_puts(res, ",\"ret\":0"); break; }
     case 2: a_begin(a[0] ? 1UL : 0UL); cstl_vector_shrink_to_fit(v); a_end(); jb_puts(res, ",\"ret\":0"); break;
     case 3: a_begin(0); cstl_vector_clear(v); a_end(); jb_puts(res, ",\"ret\":0"); break;
-    case 4: a_begin(0); __cstl_vector_sort(v, cmp, NULL, cstl_swap, (cstl_sort_algorithm_t)a[0]); a_end(); jb_puts(res, ",\"ret\":0"); break;
+    case 4: a_begin(0); __cstl_vector_sort(v, cmp, E_PRIV, cstl_swap, (cstl_sort_algorithm_t)a[0]); a_end(); jb_puts(res, ",\"ret\":0"); break;
     case 5: a_begin(0); cstl_vector_reverse(v); a_end(); jb_puts(res, ",\"ret\":0"); break;
     case 6: {
         const unsigned char *p = cstl_vector_at(v, term(a));
